@@ -33,6 +33,7 @@ import (
 	"github.com/koordinator-sh/koordinator/apis/extension"
 	sev1alpha1 "github.com/koordinator-sh/koordinator/apis/scheduling/v1alpha1"
 	deschedulerconfig "github.com/koordinator-sh/koordinator/pkg/descheduler/apis/config"
+	"github.com/koordinator-sh/koordinator/pkg/descheduler/controllers/migration/arbitrator"
 	"github.com/koordinator-sh/koordinator/pkg/descheduler/controllers/migration/reservation"
 	evictionsutil "github.com/koordinator-sh/koordinator/pkg/descheduler/evictions"
 )
@@ -82,8 +83,9 @@ type c17World struct {
 	clk  *fakeclock.FakeClock
 
 	// scripted environment (mirrors the op stream)
-	direct  bool
-	ttl     int
+	direct   bool // effective mode by the documented rule (explicit Spec.Mode wins, else args.DefaultJobMode)
+	dfltMode int
+	ttl      int
 	now     int
 	limited bool
 	preempt int
@@ -101,6 +103,148 @@ type c17World struct {
 	anyFault   bool
 	evictCalls int
 	termPhase  string
+
+	// ----- extended mode (read faults + scripted events inside one reconcile; harnesses readfaults / exhaustive) -----
+	xmode  bool
+	quiet  bool     // environment setters emit no op line (the event is part of the recx op)
+	rfault uint64   // read-fault mask of the running reconcile, bit = index among its READ calls
+	nr     int      // reads issued so far
+	nc     int      // API calls (reads, writes, Evict) issued so far
+	script []c17Ev  // events applied right before the k-th API call
+	// oracle, extended mode
+	midFired      bool // an environment event has been applied inside the running reconcile
+	lookFailed    bool // a reservation lookup of the running reconcile failed or returned NotFound
+	pendingNF     bool // the last API call was a reservation Get that returned NotFound (the interpreter retries once)
+	podReadFailed bool // a Get of the target pod failed (injected) in the running reconcile
+	arbCopy       *sev1alpha1.PodMigrationJob
+
+	// the decidable restriction of theorem evict_node_differs_restricted (Proofs/C17ExtNode.lean `restricted`), evaluated on
+	// every environment event of the history: once the job has recorded its node, no event puts the reservation or the
+	// pod on a new node
+	unrestricted bool
+	xDisturbed   bool // some reconcile of the history had a read fault or an event inside it (outside that theorem's model)
+}
+
+func (w *c17World) nodeRecorded() bool {
+	job := &sev1alpha1.PodMigrationJob{}
+	if err := w.base.Get(context.TODO(), types.NamespacedName{Name: c17JobName}, job); err != nil {
+		return false
+	}
+	_, c := utilGetCond(&job.Status, sev1alpha1.PodMigrationJobConditionReservationScheduled)
+	return job.Status.NodeName != "" || (c != nil && c.Status == sev1alpha1.PodMigrationJobConditionStatusTrue)
+}
+
+// c17Ev: one scripted environment event inside a reconcile.
+// kind 1 pod deleted, 2 pod set, 3 reservation deleted, 4 reservation set, 5 bound pod
+type c17Ev struct {
+	k, kind int
+	pod     c17Pod
+	resv    c17Resv
+	bpod    int
+}
+
+func (e c17Ev) tokens() []int64 {
+	out := []int64{int64(e.k), int64(e.kind)}
+	switch e.kind {
+	case 2:
+		out = append(out, int64(e.pod.uid), int64(e.pod.node), int64(e.pod.sched), int64(e.pod.msg), int64(vB(e.pod.pending)))
+	case 4:
+		x := e.resv
+		msg := x.msg
+		if x.sched != 3 {
+			msg = 0
+		}
+		out = append(out, int64(x.phase), int64(x.node), int64(x.sched), int64(msg), int64(vB(x.expired)), int64(x.owner),
+			int64(vB(x.pendingMode)), int64(vB(x.orderLabel)), int64(vB(x.needPreempt)))
+	case 5:
+		out = append(out, int64(e.bpod))
+	}
+	return out
+}
+
+// hook runs right before every API call of a reconcile in extended mode.
+func (w *c17World) hook() {
+	if !w.xmode {
+		return
+	}
+	k := w.nc
+	w.nc++
+	for _, e := range w.script {
+		if e.k != k {
+			continue
+		}
+		w.midFired = true
+		w.quiet = true
+		switch e.kind {
+		case 1:
+			w.setPod(nil)
+		case 2:
+			p := e.pod
+			w.setPod(&p)
+		case 3:
+			w.setResv(nil)
+		case 4:
+			x := e.resv
+			w.setResv(&x)
+		case 5:
+			w.setBPod(e.bpod)
+		}
+		w.quiet = false
+		w.h.Tag(fmt.Sprintf("mid-event:kind=%d", e.kind))
+	}
+}
+
+// noteCall keeps the "reservation lookup failed" bookkeeping of the oracle: a reservation Get that returns NotFound
+// is retried once by the interpreter (APIReader); anything else after a NotFound means the lookup failed.
+func (w *c17World) noteCall(resvGet bool, res int) {
+	if !resvGet {
+		if w.pendingNF {
+			w.lookFailed, w.pendingNF = true, false
+		}
+		return
+	}
+	switch res {
+	case 0:
+		w.pendingNF = false
+	case 1:
+		if w.pendingNF {
+			w.lookFailed, w.pendingNF = true, false
+		} else {
+			w.pendingNF = true
+		}
+	default:
+		w.lookFailed, w.pendingNF = true, false
+	}
+}
+
+// read accounts one Get of the running reconcile (extended mode): kind 8 job, 9 target pod, 10 reservation, 11 bound pod.
+func (w *c17World) read(kind int64, do func() error) error {
+	w.hook()
+	idx := w.nr
+	w.nr++
+	res := 0
+	var err error
+	if idx < 64 && (w.rfault>>uint(idx))&1 == 1 {
+		res, err = 2, c17ErrInjected
+	} else if err = do(); apierrors.IsNotFound(err) {
+		res = 1
+	} else if err != nil {
+		res = 2
+	}
+	w.acts = append(w.acts, kind, int64(vB(res == 0)), int64(res))
+	w.noteCall(kind == 10, res)
+	if kind == 9 && res == 2 {
+		w.podReadFailed = true
+	}
+	return err
+}
+
+// failLast marks the last logged write as failed: the API server itself refused it (conflict / not found after a
+// scripted event); only possible in extended mode.
+func (w *c17World) failLast() {
+	if n := len(w.acts); n >= 3 {
+		w.acts[n-2] = 0
+	}
 }
 
 // ---------- fixtures ----------
@@ -158,7 +302,7 @@ type c17Evictor struct{ w *c17World }
 func (e *c17Evictor) Evict(ctx context.Context, job *sev1alpha1.PodMigrationJob, pod *corev1.Pod) error {
 	w := e.w
 	ok := w.write(6, int64(c17Code(string(pod.UID), "u")))
-	w.oracleEvict(pod)
+	w.oracleEvict(job, pod)
 	w.evictFailed = !ok
 	if !ok {
 		return c17ErrInjected
@@ -168,6 +312,8 @@ func (e *c17Evictor) Evict(ctx context.Context, job *sev1alpha1.PodMigrationJob,
 
 // write accounts one write call of the running reconcile and tells whether it may proceed.
 func (w *c17World) write(kind int64, arg int64) bool {
+	w.hook()
+	w.noteCall(false, 0)
 	ok := w.nw >= 64 || (w.faults>>uint(w.nw))&1 == 0
 	w.nw++
 	w.acts = append(w.acts, kind, int64(vB(ok)), arg)
@@ -176,6 +322,23 @@ func (w *c17World) write(kind int64, arg int64) bool {
 
 func (w *c17World) funcs() interceptor.Funcs {
 	return interceptor.Funcs{
+		Get: func(ctx context.Context, c client.WithWatch, key client.ObjectKey, obj client.Object, opts ...client.GetOption) error {
+			if !w.xmode {
+				return c.Get(ctx, key, obj, opts...)
+			}
+			kind := int64(9)
+			switch obj.(type) {
+			case *sev1alpha1.PodMigrationJob:
+				kind = 8
+			case *sev1alpha1.Reservation:
+				kind = 10
+			default:
+				if key.Name == c17BPodName {
+					kind = 11
+				}
+			}
+			return w.read(kind, func() error { return c.Get(ctx, key, obj, opts...) })
+		},
 		Create: func(ctx context.Context, c client.WithWatch, obj client.Object, opts ...client.CreateOption) error {
 			if _, isResv := obj.(*sev1alpha1.Reservation); isResv {
 				if !w.write(3, 0) {
@@ -194,6 +357,11 @@ func (w *c17World) funcs() interceptor.Funcs {
 				if !w.write(4, 0) {
 					return c17ErrInjected
 				}
+				err := c.Update(ctx, obj, opts...)
+				if err != nil && w.xmode {
+					w.failLast()
+				}
+				return err
 			}
 			return c.Update(ctx, obj, opts...)
 		},
@@ -202,6 +370,11 @@ func (w *c17World) funcs() interceptor.Funcs {
 				if !w.write(5, 0) {
 					return c17ErrInjected
 				}
+				err := c.Delete(ctx, obj, opts...)
+				if err != nil && w.xmode {
+					w.failLast()
+				}
+				return err
 			}
 			return c.Delete(ctx, obj, opts...)
 		},
@@ -225,6 +398,7 @@ func (w *c17World) newReconciler() {
 	args.ObjectLimiters = deschedulerconfig.ObjectLimiterMap{
 		deschedulerconfig.MigrationLimitObjectNamespace: {Duration: metav1.Duration{Duration: time.Hour}},
 	}
+	args.DefaultJobMode = string(c17Modes[w.dfltMode])
 	r.args = &args
 	r.eventRecorder = w.tmpl.eventRecorder
 	r.controllerFinder = w.tmpl.controllerFinder
@@ -267,6 +441,9 @@ func c17Code(s, prefix string) int {
 
 // c17Msg: messages are canonical only when they were chosen by the generator ("m<k>"); every other text is 0.
 func c17Msg(s string) int {
+	if strings.HasPrefix(s, "Failed to create Reservation caused by") && strings.Contains(s, "not found") {
+		return 51 // CreateReservation: AlreadyExists, then the Get found nothing (the reservation vanished in between)
+	}
 	if c := c17Code(s, "m"); c != 99 {
 		return c
 	}
@@ -400,11 +577,18 @@ func (w *c17World) getPod(name string) *corev1.Pod {
 }
 
 func (w *c17World) setPod(p *c17Pod) {
+	if p != nil && p.node != 0 && w.nodeRecorded() {
+		if old := w.curPod(); old == nil || old.node != p.node {
+			w.unrestricted = true
+		}
+	}
 	if old := w.getPod(c17PodName); old != nil {
 		w.must(w.base.Delete(context.TODO(), old), "delete pod")
 	}
 	if p == nil {
-		w.h.Op("pod 0")
+		if !w.quiet {
+			w.h.Op("pod 0")
+		}
 		return
 	}
 	pod := &corev1.Pod{
@@ -423,7 +607,9 @@ func (w *c17World) setPod(p *c17Pod) {
 		pod.Status.Conditions = []corev1.PodCondition{{Type: corev1.PodScheduled, Status: corev1.ConditionTrue, Message: c17Name("m", p.msg)}}
 	}
 	w.must(w.base.Create(context.TODO(), pod), "create pod")
-	w.h.Op("pod 1 %d %d %d %d %d", p.uid, p.node, p.sched, p.msg, vB(p.pending))
+	if !w.quiet {
+		w.h.Op("pod 1 %d %d %d %d %d", p.uid, p.node, p.sched, p.msg, vB(p.pending))
+	}
 }
 
 func (w *c17World) setBPod(k int) {
@@ -438,19 +624,28 @@ func (w *c17World) setBPod(k int) {
 		}
 		w.must(w.base.Create(context.TODO(), pod), "create bound pod")
 	}
-	w.h.Op("bpod %d", k)
+	if !w.quiet {
+		w.h.Op("bpod %d", k)
+	}
 }
 
 func (w *c17World) setResv(x *c17Resv) {
+	if x != nil && x.node != 0 && w.nodeRecorded() {
+		if old := w.curResv(); old == nil || old.node != x.node {
+			w.unrestricted = true
+		}
+	}
 	old := w.getResv()
 	if x == nil {
 		if old != nil {
 			w.must(w.base.Delete(context.TODO(), old), "delete reservation")
 		}
-		w.h.Op("resv 0")
+		if !w.quiet {
+			w.h.Op("resv 0")
+		}
 		return
 	}
-	r := &sev1alpha1.Reservation{ObjectMeta: metav1.ObjectMeta{Name: c17ResvName}}
+	r := &sev1alpha1.Reservation{ObjectMeta: metav1.ObjectMeta{Name: c17ResvName, UID: c17ResvUID}}
 	if old != nil {
 		r = old
 	}
@@ -500,6 +695,9 @@ func (w *c17World) setResv(x *c17Resv) {
 	msg := x.msg
 	if x.sched != 3 {
 		msg = 0
+	}
+	if w.quiet {
+		return
 	}
 	w.h.Op("resv 1 %d %d %d %d %d %d %d %d %d", x.phase, x.node, x.sched, msg, vB(x.expired), x.owner, vB(x.pendingMode), vB(x.orderLabel), vB(x.needPreempt))
 }
@@ -568,8 +766,17 @@ func (w *c17World) curPod() *c17Pod {
 
 // oracleEvict: clause 1 — evaluated from scratch on the objects as they are in the API server at the
 // instant the evictor is called.
-func (w *c17World) oracleEvict(pod *corev1.Pod) {
+func (w *c17World) oracleEvict(job *sev1alpha1.PodMigrationJob, pod *corev1.Pod) {
 	w.evictCalls++
+	// clause 2, inside one reconcile: a job that is (being) marked Failed / Succeeded triggers no eviction
+	if p := job.Status.Phase; p == sev1alpha1.PodMigrationJobFailed || p == sev1alpha1.PodMigrationJobSucceeded {
+		w.h.Fail("C17:failed-job-evicts", "evictor called with a job whose phase is already %s (reason %q)", p, job.Status.Reason)
+	} else if p := w.getJob().Status.Phase; p == sev1alpha1.PodMigrationJobFailed || p == sev1alpha1.PodMigrationJobSucceeded {
+		w.h.Fail("C17:failed-job-evicts", "evictor called while the persisted job is already %s", p)
+	}
+	if spec := string(job.Spec.PodRef.UID); spec != "" && spec != string(pod.UID) {
+		w.h.Tag("note:evicted-pod-uid-differs-from-recorded-PodRef.UID(same-name-replacement)")
+	}
 	if !w.anyFault && w.evictCalls > 1 {
 		w.h.Fail("C17:evict-twice-no-faults", "evictor called %d times in a history without any injected failure", w.evictCalls)
 	}
@@ -581,6 +788,16 @@ func (w *c17World) oracleEvict(pod *corev1.Pod) {
 		return
 	}
 	w.h.Tag("evict:reservation-first")
+	if w.xmode && w.lookFailed {
+		// clause 1 under read faults: the eviction decision needs every reservation lookup of this reconcile answered
+		w.h.Fail("C17:evict-unsecured:lookup-failed", "Evict called in a reconcile in which a reservation lookup failed or returned NotFound")
+	}
+	if w.xmode && w.midFired {
+		// the environment changed inside this reconcile: the state AT THIS INSTANT may legitimately differ from what the
+		// lookups answered (check-then-act); the state clauses below are evaluated only when nothing changed in between
+		w.h.Tag("evict:after-mid-event(state-clauses-skipped)")
+		return
+	}
 	r := w.getResv()
 	if r == nil {
 		w.h.Fail("C17:evict-unsecured:missing", "Evict called while the reservation does not exist")
@@ -609,14 +826,19 @@ func (w *c17World) oracleEvict(pod *corev1.Pod) {
 		w.h.Tag("evict:after-preemption")
 	}
 	if r.Status.NodeName != "" && r.Status.NodeName == pod.Spec.NodeName {
-		if w.nodeBefore != "" {
+		if w.nodeBefore != "" && !w.unrestricted && !w.xDisturbed {
+			// theorem evict_node_differs_restricted: impossible in a history whose environment events are restricted
+			w.h.Fail("C17:evict-unsecured:same-node:restricted-history", "Evict called while the reservation sits on the pod's own node %q although no environment event moved the pod or the reservation after the node was recorded", pod.Spec.NodeName)
+		} else if w.nodeBefore != "" {
 			// the job recorded its target node in an EARLIER reconcile; pod or reservation changed since
 			w.h.Fail("C17:evict-unsecured:same-node:node-check-stale", "Evict called while the reservation sits on the pod's own node %q (the same-node check was made in an earlier reconcile, job.Status.NodeName=%q)", pod.Spec.NodeName, w.nodeBefore)
 			if !w.anyFault {
 				w.h.Tag("note:node-check-stale-in-a-fault-free-history")
 			}
 		} else {
-			w.h.Fail("C17:evict-unsecured:same-node", "Evict called while the reservation sits on the pod's own node %q", pod.Spec.NodeName)
+			// the job had no recorded node when this reconcile started: the same-node check belongs to this very reconcile
+			// (also when a pod Get failed on the way: a failed read must not skip the gate — repaired by 5fb78f6)
+			w.h.Fail("C17:evict-unsecured:same-node", "Evict called while the reservation sits on the pod's own node %q (pod Get failed in this reconcile: %v)", pod.Spec.NodeName, w.podReadFailed)
 		}
 	}
 	if r.Status.Phase == sev1alpha1.ReservationSucceeded {
@@ -629,6 +851,29 @@ func (w *c17World) oracleEvict(pod *corev1.Pod) {
 // ---------- one reconcile ----------
 
 func (w *c17World) reconcile(faults uint64) {
+	w.reconcileOp(faults, fmt.Sprintf("rec %d", faults))
+}
+
+// reconcileX: one reconcile in extended mode: write-fault mask, read-fault mask, scripted events inside the reconcile.
+func (w *c17World) reconcileX(faults, rfault uint64, script []c17Ev) {
+	w.xmode = true
+	w.rfault, w.nr, w.nc, w.script = rfault, 0, 0, script
+	w.midFired, w.lookFailed, w.pendingNF, w.podReadFailed = false, false, false, false
+	toks := []int64{int64(faults), int64(rfault), int64(len(script))}
+	for _, e := range script {
+		toks = append(toks, e.tokens()...)
+	}
+	if rfault != 0 || len(script) > 0 {
+		w.xDisturbed = true
+	}
+	w.reconcileOp(faults, "recx "+vInts(toks))
+	w.xmode = false
+	if rfault != 0 {
+		w.h.Tag("recx:read-fault-mask-set")
+	}
+}
+
+func (w *c17World) reconcileOp(faults uint64, opLine string) {
 	h := w.h
 	before := w.getJob()
 	resvBefore := w.getResv()
@@ -638,7 +883,7 @@ func (w *c17World) reconcile(faults uint64) {
 	if _, c := utilGetCond(&before.Status, sev1alpha1.PodMigrationJobConditionReservationScheduled); c != nil && c.Status == sev1alpha1.PodMigrationJobConditionStatusTrue && w.nodeBefore == "" {
 		w.nodeBefore = "(ReservationScheduled=True)"
 	}
-	h.Op("rec %d", faults)
+	h.Op("%s", opLine)
 	panicked := h.Guard(func() {
 		_, _ = w.r.Reconcile(context.TODO(), reconcile.Request{NamespacedName: types.NamespacedName{Name: c17JobName}})
 	})
@@ -647,10 +892,19 @@ func (w *c17World) reconcile(faults uint64) {
 		return
 	}
 	faultHit := false
-	for i := 1; i < len(w.acts); i += 3 {
-		if w.acts[i-1] != 7 && w.acts[i] == 0 {
+	for i := 1; i+1 < len(w.acts); i += 3 {
+		switch k := w.acts[i-1]; {
+		case k >= 8: // a read: NotFound is an answer, not a failure
+			if w.acts[i+1] == 2 {
+				faultHit = true
+				h.Tag(fmt.Sprintf("rec:read-failed:kind=%d", k))
+			}
+		case k != 7 && w.acts[i] == 0:
 			faultHit = true
 		}
+	}
+	if w.midFired {
+		h.Tag("rec:mid-event-fired")
 	}
 	job := w.getJob()
 	st := job.Status
@@ -711,7 +965,10 @@ func (w *c17World) reconcile(faults uint64) {
 	expiredNow := w.ttl > 0 && w.now >= w.ttl
 	if becameTimeout || (expiredNow && wasLive && !before.Spec.Paused && !ignored && !faultHit) {
 		h.Tag("ttl:expired-reconciled")
-		if name := refName(job); name != "" && w.getResv() != nil {
+		if w.midFired {
+			// the environment (re-)created / changed the reservation inside this very reconcile: nothing to demand
+			h.Tag("ttl:expired-reconciled-with-mid-event")
+		} else if name := refName(job); name != "" && w.getResv() != nil {
 			h.Fail("C17:expired-keeps-reservation", "job past its TTL (now %d >= ttl %d, phase %q reason %q) but its reservation %s still exists", w.now, w.ttl, st.Phase, st.Reason, name)
 		}
 		if refName(job) == "" && w.getResv() != nil && resvBefore != nil && resvBefore.Labels[reservation.LabelCreatedBy] == reservation.DefaultCreator {
@@ -951,11 +1208,241 @@ func utilGetCond(st *sev1alpha1.PodMigrationJobStatus, t sev1alpha1.PodMigration
 	return -1, nil
 }
 
-func TestVerifC17(t *testing.T) {
-	h := vOpen("C17")
-	if h == nil {
-		t.Skip("VERIF_OUT not set")
+var c17Modes = []sev1alpha1.PodMigrationJobMode{"", sev1alpha1.PodMigrationJobModeReservationFirst, sev1alpha1.PodMigrationJobModeEvictionDirectly}
+
+func c17ModeCode(m sev1alpha1.PodMigrationJobMode) int {
+	for i, x := range c17Modes {
+		if x == m {
+			return i
+		}
 	}
+	return 1
+}
+
+// c17GenModes: Spec.Mode x args.DefaultJobMode (codes 0 "", 1 ReservationFirst, 2 EvictDirectly); a quarter of the
+// jobs get their mode the way CreatePodMigrationJob does: the default, overridden by JobContext.Mode.
+func c17GenModes(r *vRand) (specMode, dflt, ctxMode int, viaCtx bool) {
+	dflt = []int{1, 1, 1, 0, 2, 2}[r.Intn(6)]
+	if r.Chance(1, 4) {
+		viaCtx, ctxMode = true, r.Intn(3)
+		specMode = ctxMode
+		if ctxMode == 0 {
+			specMode = dflt
+		}
+		return
+	}
+	specMode = []int{0, 0, 1, 1, 1, 2}[r.Intn(6)]
+	return
+}
+
+const c17ResvUID = "c17-resv-uid"
+
+// c17Ref: the shapes a ReservationRef takes: name only (user-written), namespace+name, full reference with the
+// live uid (what the controller writes), full reference with a stale uid.
+func c17Ref(shape int) *corev1.ObjectReference {
+	switch shape {
+	case 1:
+		return &corev1.ObjectReference{Namespace: c17NS, Name: c17ResvName}
+	case 2:
+		return &corev1.ObjectReference{Kind: "Reservation", APIVersion: "v1alpha1", Name: c17ResvName, UID: c17ResvUID}
+	case 3:
+		return &corev1.ObjectReference{Kind: "Reservation", APIVersion: "v1alpha1", Name: c17ResvName, UID: "c17-stale-uid"}
+	}
+	return &corev1.ObjectReference{Name: c17ResvName}
+}
+
+// c17InitCase builds one case: an empty fake API server, the job (mode x default mode, TTL, PodRef, ReservationRef
+// shape, annotations, initial status), the reconciler, the initial pod and reservation.  `fix` (optional) pins
+// choices for the directed / exhaustive streams.
+type c17Fix struct {
+	fresh    bool // reservation-first, explicit mode, TTL 300, valid PodRef, no ref, phase "", pod on node 1, no reservation
+	midway   bool // like fresh but Running with a ReservationRef and an existing pending reservation
+	refShape int
+}
+
+func c17InitCase(h *vHarness, r *vRand, tmpl *Reconciler, base client.WithWatch, fix *c17Fix) *c17World {
+	w := &c17World{h: h, tmpl: tmpl}
+	// one fake API server for the whole run (building one costs ~20 ms); every case starts from an empty one
+	w.base = base
+	for _, o := range []client.Object{
+		&sev1alpha1.PodMigrationJob{ObjectMeta: metav1.ObjectMeta{Name: c17JobName}},
+		&sev1alpha1.Reservation{ObjectMeta: metav1.ObjectMeta{Name: c17ResvName}},
+		&corev1.Pod{ObjectMeta: metav1.ObjectMeta{Namespace: c17NS, Name: c17PodName}},
+		&corev1.Pod{ObjectMeta: metav1.ObjectMeta{Namespace: c17NS, Name: c17BPodName}},
+	} {
+		if err := base.Delete(context.TODO(), o); err != nil && !apierrors.IsNotFound(err) {
+			panic(err)
+		}
+	}
+	w.cl = interceptor.NewClient(w.base, w.funcs())
+	w.clk = fakeclock.NewFakeClock(c17T0)
+
+	// ----- the job -----
+	specMode, dflt, ctxMode, viaCtx := c17GenModes(r)
+	if r.Chance(2, 3) {
+		w.ttl = r.Range(60, 600)
+	}
+	podRefValid := !r.Chance(1, 30)
+	podUID := 0
+	if r.Bool() {
+		podUID = 1
+	}
+	resvRef := r.Chance(1, 6)
+	refShape := r.Intn(4)
+	evictAnno := r.Chance(1, 8)
+	w.ctrlUID = 1
+	createdBy := []int{0, 0, 0, 1, 1, 2}[r.Intn(6)]
+	if fix != nil && (fix.fresh || fix.midway) {
+		specMode, dflt, viaCtx = 1, r.Range(0, 2), false
+		w.ttl, podRefValid, podUID, resvRef, evictAnno, createdBy = 300, true, 0, fix.midway, false, 0
+		refShape = fix.refShape
+	}
+	w.dfltMode = dflt
+	// the documented rule: an explicit mode wins, an empty mode takes the configured default
+	w.direct = specMode == 2 || (specMode == 0 && dflt == 2)
+	job := &sev1alpha1.PodMigrationJob{
+		ObjectMeta: metav1.ObjectMeta{Name: c17JobName, UID: c17ResvName, CreationTimestamp: metav1.Time{Time: c17T0}, Annotations: map[string]string{}},
+		Spec: sev1alpha1.PodMigrationJobSpec{
+			PodRef: &corev1.ObjectReference{Namespace: c17NS, Name: c17PodName, UID: types.UID(c17Name("u", podUID))},
+		},
+	}
+	if !podRefValid {
+		job.Spec.PodRef.Name = ""
+	}
+	if viaCtx {
+		// a job created by the controller itself (CreatePodMigrationJob): the configured default, overridden by the JobContext
+		job.Spec.Mode = c17Modes[dflt]
+		if err := (&JobContext{Mode: c17Modes[ctxMode]}).ApplyTo(job); err != nil {
+			panic(err)
+		}
+		h.Tag("init:mode-via-job-context")
+	} else {
+		job.Spec.Mode = c17Modes[specMode]
+	}
+	if w.ttl > 0 {
+		job.Spec.TTL = &metav1.Duration{Duration: time.Duration(w.ttl) * time.Second}
+	} else if r.Bool() {
+		job.Spec.TTL = &metav1.Duration{}
+	}
+	if resvRef {
+		job.Spec.ReservationOptions = &sev1alpha1.PodMigrateReservationOptions{ReservationRef: c17Ref(refShape)}
+		h.Tag(fmt.Sprintf("init:ref-shape=%d", refShape))
+	}
+	if evictAnno {
+		job.Annotations[evictionsutil.EvictPodAnnotationKey] = "true"
+	}
+	if createdBy != 0 {
+		job.Annotations[AnnotationJobCreatedBy] = fmt.Sprintf("c%d", createdBy)
+	}
+	w.must(w.base.Create(context.TODO(), job), "create job")
+	// initial status: fresh, mid-flight, or already terminal
+	var st sev1alpha1.PodMigrationJobStatus
+	k := r.Intn(20)
+	if fix != nil && fix.fresh {
+		k = 0
+	} else if fix != nil && fix.midway {
+		k = 12
+	}
+	switch {
+	case k < 12 && fix != nil && (fix.fresh || fix.midway):
+	case k < 12:
+		if r.Bool() && podRefValid {
+			st.Phase = sev1alpha1.PodMigrationJobPending
+		}
+	case k < 18 && podRefValid:
+		st.Phase = sev1alpha1.PodMigrationJobRunning
+		// conditions a live job can carry (as the controller writes them).  Never ReservationScheduled=True /
+		// Status.NodeName (they record a same-node check made against an environment this history does not
+		// know) and never PodBoundReservation=True / PodScheduled=True (only written together with Succeeded).
+		type tc struct {
+			t      int
+			st     bool
+			reason string
+			msg    int
+		}
+		menu := []tc{{1, true, "", 0}, {1, false, sev1alpha1.PodMigrationJobReasonFailedCreateReservation, 0},
+			{2, false, sev1alpha1.PodMigrationJobReasonUnschedulable, r.Range(0, 3)},
+			{4, false, sev1alpha1.PodMigrationJobReasonEvicting, 0}, {4, true, sev1alpha1.PodMigrationJobReasonEvictComplete, 0},
+			{5, false, sev1alpha1.PodMigrationJobReasonUnschedulable, r.Range(0, 3)},
+			{6, false, sev1alpha1.PodMigrationJobReasonWaitForPodBindReservation, 0}, {8, true, "", 0},
+			{7, false, sev1alpha1.PodMigrationJobReasonWaitForBoundPodReady, 0}, {7, true, "", 0}}
+		nc := r.Range(0, 3)
+		if fix != nil && fix.midway {
+			nc = 0
+		}
+		for i := 0; i < nc; i++ {
+			m := menu[r.Intn(len(menu))]
+			c := sev1alpha1.PodMigrationJobCondition{Type: c17CondTypeOf(m.t), Status: sev1alpha1.PodMigrationJobConditionStatusFalse,
+				Reason: m.reason, Message: c17Name("m", m.msg)}
+			if m.st {
+				c.Status = sev1alpha1.PodMigrationJobConditionStatusTrue
+			}
+			if m.reason == sev1alpha1.PodMigrationJobReasonFailedCreateReservation {
+				// the text the controller itself writes for the (only) create error of this harness
+				c.Message = fmt.Sprintf("Failed to create Reservation caused by %v", c17ErrInjected)
+			}
+			if _, old := utilGetCond(&st, c.Type); old == nil {
+				st.Conditions = append(st.Conditions, c)
+			}
+		}
+		if len(st.Conditions) > 0 {
+			st.Status = string(st.Conditions[len(st.Conditions)-1].Type)
+			st.Reason = st.Conditions[len(st.Conditions)-1].Reason
+		}
+	case podRefValid:
+		st.Phase = c17Phases[r.Range(3, 5)]
+		st.Reason = c17ReasonOf(r.Range(0, 7))
+	}
+	job.Status = st
+	w.must(w.base.Status().Update(context.TODO(), job), "init job status")
+	job = w.getJob()
+	if !job.CreationTimestamp.Time.Equal(c17T0) {
+		panic("c17 harness: fake client did not keep the creation timestamp")
+	}
+	if sev1alpha1.PodMigrationJobPhase(st.Phase) == sev1alpha1.PodMigrationJobSucceeded || st.Phase == sev1alpha1.PodMigrationJobFailed {
+		w.termPhase = string(st.Phase)
+	}
+	flat := []int64{}
+	for _, c := range st.Conditions {
+		flat = append(flat, int64(c17CondTypes[c.Type]), int64(vB(c.Status == sev1alpha1.PodMigrationJobConditionStatusTrue)),
+			int64(c17ReasonCode(c.Reason)), int64(c17Msg(c.Message)))
+	}
+	h.Op("%s", strings.TrimSpace(fmt.Sprintf("init %d %d %d %d %d %d %d %d %d %d %d %d %d %d %s",
+		0, 10+c17ModeCode(job.Spec.Mode)+3*dflt, w.ttl, vB(podRefValid), podUID, vB(resvRef), vB(evictAnno), createdBy,
+		c17PhaseCode(st.Phase), c17StatusCode(st.Status), c17ReasonCode(st.Reason), c17Code(st.NodeName, "n"), 0, len(st.Conditions), vInts(flat))))
+	w.newReconciler()
+	h.Op("restart %d", w.ctrlUID)
+	h.Tag(fmt.Sprintf("init:phase=%s", st.Phase))
+	h.Tag(fmt.Sprintf("init:direct=%v", w.direct))
+	h.Tag(fmt.Sprintf("init:mode=%q/default=%q", job.Spec.Mode, c17Modes[dflt]))
+	w.arbCopy = w.getJob()
+
+	// ----- initial environment -----
+	if fix != nil && (fix.fresh || fix.midway) {
+		w.setPod(&c17Pod{uid: 1, node: 1})
+		if fix.midway {
+			w.setResv(&c17Resv{phase: 1, orderLabel: true})
+		}
+		return w
+	}
+	if !r.Chance(1, 12) {
+		p := &c17Pod{uid: 1, node: r.Range(1, 3)}
+		if r.Chance(1, 6) {
+			p.pending, p.node, p.sched, p.msg = true, 0, 1, r.Range(0, 3)
+		}
+		w.setPod(p)
+	}
+	if resvRef || r.Chance(1, 10) {
+		if !r.Chance(1, 5) {
+			w.setResv(&c17Resv{phase: r.Range(0, 1), orderLabel: r.Bool(), pendingMode: r.Chance(1, 6)})
+		}
+	}
+
+	return w
+}
+
+// c17Setup: quiet klog, the package's own fixture, one fake API server with a status subresource for the job.
+func c17Setup() (*Reconciler, client.WithWatch) {
 	klog.LogToStderr(false)
 	klog.SetOutput(io.Discard)
 	fs := flag.NewFlagSet("klog", flag.ContinueOnError)
@@ -969,154 +1456,22 @@ func TestVerifC17(t *testing.T) {
 	// time) and managed fields are irrelevant here; update / status-subresource semantics are the fake client's own
 	tracker := clienttesting.NewObjectTracker(scheme, serializer.NewCodecFactory(scheme).UniversalDecoder())
 	base := fake.NewClientBuilder().WithStatusSubresource(&sev1alpha1.PodMigrationJob{}).WithScheme(scheme).WithObjectTracker(tracker).Build()
+	return tmpl, base
+}
+
+func TestVerifC17(t *testing.T) {
+	h := vOpen("C17")
+	if h == nil {
+		t.Skip("VERIF_OUT not set")
+	}
+	tmpl, base := c17Setup()
 	n := h.N(6000, 120000)
 	for idx := 0; idx < n; idx++ {
 		r := h.Begin(idx)
 		if r == nil {
 			continue
 		}
-		w := &c17World{h: h, tmpl: tmpl}
-		// one fake API server for the whole run (building one costs ~20 ms); every case starts from an empty one
-		w.base = base
-		for _, o := range []client.Object{
-			&sev1alpha1.PodMigrationJob{ObjectMeta: metav1.ObjectMeta{Name: c17JobName}},
-			&sev1alpha1.Reservation{ObjectMeta: metav1.ObjectMeta{Name: c17ResvName}},
-			&corev1.Pod{ObjectMeta: metav1.ObjectMeta{Namespace: c17NS, Name: c17PodName}},
-			&corev1.Pod{ObjectMeta: metav1.ObjectMeta{Namespace: c17NS, Name: c17BPodName}},
-		} {
-			if err := base.Delete(context.TODO(), o); err != nil && !apierrors.IsNotFound(err) {
-				panic(err)
-			}
-		}
-		w.cl = interceptor.NewClient(w.base, w.funcs())
-		w.clk = fakeclock.NewFakeClock(c17T0)
-
-		// ----- the job -----
-		w.direct = r.Chance(1, 6)
-		if r.Chance(2, 3) {
-			w.ttl = r.Range(60, 600)
-		}
-		podRefValid := !r.Chance(1, 30)
-		podUID := 0
-		if r.Bool() {
-			podUID = 1
-		}
-		resvRef := r.Chance(1, 6)
-		evictAnno := r.Chance(1, 8)
-		w.ctrlUID = 1
-		createdBy := []int{0, 0, 0, 1, 1, 2}[r.Intn(6)]
-		job := &sev1alpha1.PodMigrationJob{
-			ObjectMeta: metav1.ObjectMeta{Name: c17JobName, UID: c17ResvName, CreationTimestamp: metav1.Time{Time: c17T0}, Annotations: map[string]string{}},
-			Spec: sev1alpha1.PodMigrationJobSpec{
-				PodRef: &corev1.ObjectReference{Namespace: c17NS, Name: c17PodName, UID: types.UID(c17Name("u", podUID))},
-			},
-		}
-		if !podRefValid {
-			job.Spec.PodRef.Name = ""
-		}
-		if w.direct {
-			job.Spec.Mode = sev1alpha1.PodMigrationJobModeEvictionDirectly
-		} else if r.Bool() {
-			job.Spec.Mode = sev1alpha1.PodMigrationJobModeReservationFirst
-		}
-		if w.ttl > 0 {
-			job.Spec.TTL = &metav1.Duration{Duration: time.Duration(w.ttl) * time.Second}
-		} else if r.Bool() {
-			job.Spec.TTL = &metav1.Duration{}
-		}
-		if resvRef {
-			job.Spec.ReservationOptions = &sev1alpha1.PodMigrateReservationOptions{ReservationRef: &corev1.ObjectReference{Name: c17ResvName}}
-		}
-		if evictAnno {
-			job.Annotations[evictionsutil.EvictPodAnnotationKey] = "true"
-		}
-		if createdBy != 0 {
-			job.Annotations[AnnotationJobCreatedBy] = fmt.Sprintf("c%d", createdBy)
-		}
-		w.must(w.base.Create(context.TODO(), job), "create job")
-		// initial status: fresh, mid-flight, or already terminal
-		var st sev1alpha1.PodMigrationJobStatus
-		switch k := r.Intn(20); {
-		case k < 12:
-			if r.Bool() && podRefValid {
-				st.Phase = sev1alpha1.PodMigrationJobPending
-			}
-		case k < 18 && podRefValid:
-			st.Phase = sev1alpha1.PodMigrationJobRunning
-			// conditions a live job can carry (as the controller writes them).  Never ReservationScheduled=True /
-			// Status.NodeName (they record a same-node check made against an environment this history does not
-			// know) and never PodBoundReservation=True / PodScheduled=True (only written together with Succeeded).
-			type tc struct {
-				t      int
-				st     bool
-				reason string
-				msg    int
-			}
-			menu := []tc{{1, true, "", 0}, {1, false, sev1alpha1.PodMigrationJobReasonFailedCreateReservation, 0},
-				{2, false, sev1alpha1.PodMigrationJobReasonUnschedulable, r.Range(0, 3)},
-				{4, false, sev1alpha1.PodMigrationJobReasonEvicting, 0}, {4, true, sev1alpha1.PodMigrationJobReasonEvictComplete, 0},
-				{5, false, sev1alpha1.PodMigrationJobReasonUnschedulable, r.Range(0, 3)},
-				{6, false, sev1alpha1.PodMigrationJobReasonWaitForPodBindReservation, 0}, {8, true, "", 0},
-				{7, false, sev1alpha1.PodMigrationJobReasonWaitForBoundPodReady, 0}, {7, true, "", 0}}
-			nc := r.Range(0, 3)
-			for i := 0; i < nc; i++ {
-				m := menu[r.Intn(len(menu))]
-				c := sev1alpha1.PodMigrationJobCondition{Type: c17CondTypeOf(m.t), Status: sev1alpha1.PodMigrationJobConditionStatusFalse,
-					Reason: m.reason, Message: c17Name("m", m.msg)}
-				if m.st {
-					c.Status = sev1alpha1.PodMigrationJobConditionStatusTrue
-				}
-				if m.reason == sev1alpha1.PodMigrationJobReasonFailedCreateReservation {
-					// the text the controller itself writes for the (only) create error of this harness
-					c.Message = fmt.Sprintf("Failed to create Reservation caused by %v", c17ErrInjected)
-				}
-				if _, old := utilGetCond(&st, c.Type); old == nil {
-					st.Conditions = append(st.Conditions, c)
-				}
-			}
-			if len(st.Conditions) > 0 {
-				st.Status = string(st.Conditions[len(st.Conditions)-1].Type)
-				st.Reason = st.Conditions[len(st.Conditions)-1].Reason
-			}
-		case podRefValid:
-			st.Phase = c17Phases[r.Range(3, 5)]
-			st.Reason = c17ReasonOf(r.Range(0, 7))
-		}
-		job.Status = st
-		w.must(w.base.Status().Update(context.TODO(), job), "init job status")
-		job = w.getJob()
-		if !job.CreationTimestamp.Time.Equal(c17T0) {
-			panic("c17 harness: fake client did not keep the creation timestamp")
-		}
-		if sev1alpha1.PodMigrationJobPhase(st.Phase) == sev1alpha1.PodMigrationJobSucceeded || st.Phase == sev1alpha1.PodMigrationJobFailed {
-			w.termPhase = string(st.Phase)
-		}
-		flat := []int64{}
-		for _, c := range st.Conditions {
-			flat = append(flat, int64(c17CondTypes[c.Type]), int64(vB(c.Status == sev1alpha1.PodMigrationJobConditionStatusTrue)),
-				int64(c17ReasonCode(c.Reason)), int64(c17Msg(c.Message)))
-		}
-		h.Op("%s", strings.TrimSpace(fmt.Sprintf("init %d %d %d %d %d %d %d %d %d %d %d %d %d %d %s",
-			0, vB(w.direct), w.ttl, vB(podRefValid), podUID, vB(resvRef), vB(evictAnno), createdBy,
-			c17PhaseCode(st.Phase), c17StatusCode(st.Status), c17ReasonCode(st.Reason), c17Code(st.NodeName, "n"), 0, len(st.Conditions), vInts(flat))))
-		w.newReconciler()
-		h.Op("restart %d", w.ctrlUID)
-		h.Tag(fmt.Sprintf("init:phase=%s", st.Phase))
-		h.Tag(fmt.Sprintf("init:direct=%v", w.direct))
-
-		// ----- initial environment -----
-		if !r.Chance(1, 12) {
-			p := &c17Pod{uid: 1, node: r.Range(1, 3)}
-			if r.Chance(1, 6) {
-				p.pending, p.node, p.sched, p.msg = true, 0, 1, r.Range(0, 3)
-			}
-			w.setPod(p)
-		}
-		if resvRef || r.Chance(1, 10) {
-			if !r.Chance(1, 5) {
-				w.setResv(&c17Resv{phase: r.Range(0, 1), orderLabel: r.Bool(), pendingMode: r.Chance(1, 6)})
-			}
-		}
+		w := c17InitCase(h, r, tmpl, base, nil)
 
 		// ----- the history -----
 		faultFree := r.Bool()
@@ -1134,6 +1489,7 @@ func TestVerifC17(t *testing.T) {
 			h.Tag("history:fault-free")
 		}
 		h.Tag(fmt.Sprintf("history:evict-calls=%d", w.evictCalls))
+		h.Tag(fmt.Sprintf("history:restricted-events=%v/evicted=%v", !w.unrestricted, w.evictCalls > 0))
 		h.Tag("history:final-phase=" + string(w.getJob().Status.Phase))
 		h.End()
 	}
@@ -1141,4 +1497,270 @@ func TestVerifC17(t *testing.T) {
 		"Reconcile with a write-fault mask (job update, status update, reservation create/update/delete, evict; half of the histories fault-free) interleaved with environment events " +
 		"(reservation scheduled on another/the same node, unschedulable, expired, deleted, bound, odd states; pod deleted/replaced/pending; bound pod readiness; clock past TTL; pause; limiter; preemption script; controller restart with same/new uid), " +
 		"2/3 of the histories steered along the happy path; non-trivial = at least one reconcile issued a write; distinct by op lines")
+}
+
+// ---------- extended streams: read faults, events inside a reconcile, arbitration hand-off, small-scope exhaustive ----------
+
+// arb = the arbitration hand-off (arbitrator.updatePassedJob): the arbitrator updates ITS copy of the job (taken when
+// the job was added) with the passed-arbitration annotation; a stale copy is refused by the API server (conflict).
+func (w *c17World) arb() {
+	j := w.arbCopy.DeepCopy()
+	if j.Annotations == nil {
+		j.Annotations = map[string]string{}
+	}
+	j.Annotations[arbitrator.AnnotationPassedArbitration] = "true"
+	err := w.base.Update(context.TODO(), j)
+	switch {
+	case err == nil:
+		w.h.Tag("env:arbitration-passed")
+		w.arbCopy = w.getJob()
+	case apierrors.IsConflict(err):
+		w.h.Tag("env:arbitration-update-conflict(stale-copy)")
+	default:
+		w.must(err, "arbitration update")
+	}
+	w.h.Op("arb")
+}
+
+func c17GenEv(r *vRand, w *c17World, k int) c17Ev {
+	rv := w.curResv()
+	pod := w.curPod()
+	podNode := 1
+	if pod != nil && pod.node != 0 {
+		podNode = pod.node
+	}
+	other := podNode%3 + 1
+	e := c17Ev{k: k}
+	base := c17Resv{orderLabel: true}
+	if rv != nil {
+		base = *rv
+	}
+	switch c := r.Intn(20); {
+	case c < 6:
+		e.kind = 3 // reservation deleted
+	case c < 8: // (re-)scheduled on the pod's node
+		e.kind, e.resv = 4, base
+		e.resv.phase, e.resv.sched, e.resv.msg, e.resv.node = 2, 1, 0, podNode
+	case c < 10: // (re-)scheduled on another node
+		e.kind, e.resv = 4, base
+		e.resv.phase, e.resv.sched, e.resv.msg, e.resv.node = 2, 1, 0, other
+	case c < 11: // back to pending
+		e.kind, e.resv = 4, base
+		e.resv.phase, e.resv.sched, e.resv.node = 1, 0, 0
+	case c < 12: // expired
+		e.kind, e.resv = 4, base
+		e.resv.phase, e.resv.expired = 4, true
+	case c < 14: // consumed by another pod
+		e.kind, e.resv = 4, base
+		e.resv.phase, e.resv.owner = 3, 9
+		if e.resv.node == 0 {
+			e.resv.node, e.resv.sched = other, 1
+		}
+	case c < 15: // label dropped / touched only (resourceVersion bump)
+		e.kind, e.resv = 4, base
+		e.resv.orderLabel = r.Bool()
+	case c < 16:
+		e.kind = 1 // pod deleted
+	case c < 19: // pod replaced (same name)
+		e.kind = 2
+		uid := 2
+		if pod != nil {
+			uid = pod.uid%6 + 1
+		}
+		e.pod = c17Pod{uid: uid, node: r.Range(1, 3), sched: 2}
+		if rv != nil && rv.node != 0 && r.Bool() {
+			e.pod.node = rv.node
+		}
+	default:
+		e.kind, e.bpod = 5, r.Range(0, 2)
+	}
+	return e
+}
+
+func c17GenScript(r *vRand, w *c17World) (uint64, []c17Ev) {
+	var rf uint64
+	switch r.Intn(8) {
+	case 0, 1, 2:
+	case 3, 4, 5:
+		rf = 1 << uint(r.Intn(9))
+	case 6:
+		rf = 1<<uint(r.Intn(6)) | 1<<uint(r.Intn(10))
+	default:
+		rf = uint64(r.Intn(128))
+	}
+	var evs []c17Ev
+	n := []int{0, 0, 0, 1, 1, 2}[r.Intn(6)]
+	last := -1
+	for i := 0; i < n; i++ {
+		k := last + 1 + r.Intn(6)
+		last = k
+		evs = append(evs, c17GenEv(r, w, k))
+	}
+	return rf, evs
+}
+
+func TestVerifC17Read(t *testing.T) {
+	h := vOpen("C17")
+	if h == nil {
+		t.Skip("VERIF_OUT not set")
+	}
+	tmpl, base := c17Setup()
+	n := h.N(5000, 60000)
+	for idx := 0; idx < n; idx++ {
+		r := h.Begin(idx)
+		if r == nil {
+			continue
+		}
+		switch {
+		case idx%3 == 0:
+			// directed: a job half way (Running, ReservationRef, reservation just scheduled on another node, pod on node 1);
+			// ONE read fault or ONE scripted event swept over every call position of the reconcile that would evict
+			w := c17InitCase(h, r, tmpl, base, &c17Fix{midway: true, refShape: r.Intn(4)})
+			w.setResv(&c17Resv{phase: 2, node: []int{2, 2, 2, 1}[r.Intn(4)], sched: 1, orderLabel: r.Chance(3, 4)})
+			pos := (idx / 3) % 14
+			if r.Chance(1, 4) {
+				w.reconcileX(0, 0, nil) // first reconcile clean: the node is recorded and the pod evicted; then disturb the retry
+				w.setPod(&c17Pod{uid: 1, node: 1})
+			}
+			switch (idx / 42) % 4 {
+			case 0:
+				w.reconcileX(0, 1<<uint(pos), nil)
+			case 1:
+				w.reconcileX(0, 0, []c17Ev{{k: pos, kind: 3}})
+			case 2:
+				w.reconcileX(uint64(c17GenFaults(r, false)), 1<<uint(pos), []c17Ev{c17GenEv(r, w, r.Intn(12))})
+			default:
+				ev := c17GenEv(r, w, pos)
+				w.reconcileX(0, 0, []c17Ev{ev})
+			}
+			for s, steps := 0, r.Range(1, 4); s < steps; s++ {
+				if r.Bool() {
+					w.envEvent(r, true)
+				}
+				rf, evs := c17GenScript(r, w)
+				w.reconcileX(c17GenFaults(r, false), rf, evs)
+			}
+			h.Tag("stream:directed-sweep")
+			h.Tag(fmt.Sprintf("history:evict-calls=%d", w.evictCalls))
+		default:
+			w := c17InitCase(h, r, tmpl, base, nil)
+			noWriteFaults := r.Bool()
+			helpful := r.Chance(3, 4)
+			steps := r.Range(4, 14)
+			for s := 0; s < steps; s++ {
+				switch c := r.Intn(20); {
+				case c < 10:
+					rf, evs := c17GenScript(r, w)
+					w.reconcileX(c17GenFaults(r, noWriteFaults), rf, evs)
+				case c < 11:
+					w.reconcile(c17GenFaults(r, noWriteFaults)) // the same world, through the write-fault-only model
+				case c < 12:
+					w.arb()
+				default:
+					w.envEvent(r, helpful && r.Chance(3, 4))
+				}
+			}
+			rf, evs := c17GenScript(r, w)
+			w.reconcileX(0, rf, evs)
+			h.Tag("stream:random")
+			h.Tag(fmt.Sprintf("history:evict-calls=%d", w.evictCalls))
+			h.Tag("history:final-phase=" + string(w.getJob().Status.Phase))
+		}
+		h.End()
+	}
+	h.Close("histories as in TestVerifC17, but every reconcile carries a write-fault mask, a READ-fault mask (any Get of job / pod / reservation incl. the APIReader retry and the lookup inside evictPod / bound pod, by call index) " +
+		"and 0-2 scripted environment events applied right before the k-th API call of that reconcile (reservation deleted / re-scheduled on the pod's or another node / pending / expired / consumed / touched, pod deleted / replaced, bound pod); " +
+		"1/3 directed: a job half way with its reservation just scheduled, one read fault or one event swept over every call position; arbitration hand-off and controller restart as events; non-trivial = at least one reconcile issued an API call; distinct by op lines")
+}
+
+// TestVerifC17Exhaustive: ALL histories of at most 4 events over a 15-letter alphabet, from two start states
+// (a fresh reservation-first job / a job half way with a pending reservation).
+func TestVerifC17Exhaustive(t *testing.T) {
+	h := vOpen("C17")
+	if h == nil {
+		t.Skip("VERIF_OUT not set")
+	}
+	tmpl, base := c17Setup()
+	const A = 15
+	total := 0
+	for l, p := 0, 1; l <= 4; l, p = l+1, p*A {
+		total += p
+	}
+	n := 2 * total
+	if vEnvInt("VERIF_C17_EXH_MAX", 0) > 0 && n > vEnvInt("VERIF_C17_EXH_MAX", 0) {
+		n = vEnvInt("VERIF_C17_EXH_MAX", 0)
+	}
+	for idx := 0; idx < n; idx++ {
+		r := h.Begin(idx)
+		if r == nil {
+			continue
+		}
+		// decode idx -> (start state, length, letters)
+		start, code := idx%2, idx/2
+		length, p := 0, 1
+		for code >= p {
+			code -= p
+			p *= A
+			length++
+		}
+		letters := make([]int, length)
+		for i := range letters {
+			letters[i] = code % A
+			code /= A
+		}
+		w := c17InitCase(h, r, tmpl, base, &c17Fix{fresh: start == 0, midway: start == 1, refShape: 2})
+		for _, a := range letters {
+			rv := w.curResv()
+			if rv == nil {
+				rv = &c17Resv{orderLabel: true}
+			}
+			switch a {
+			case 0:
+				w.reconcile(0)
+			case 1:
+				w.reconcile(4)
+			case 2:
+				w.reconcile(8)
+			case 3:
+				w.reconcileX(0, 0, []c17Ev{{k: 5, kind: 3}})
+			case 4:
+				w.reconcileX(0, 1<<5, nil)
+			case 5:
+				rv.phase, rv.sched, rv.msg, rv.node = 2, 1, 0, 2
+				w.setResv(rv)
+			case 6:
+				rv.phase, rv.sched, rv.msg, rv.node = 2, 1, 0, 1
+				w.setResv(rv)
+			case 7:
+				w.setResv(nil)
+			case 8:
+				rv.phase, rv.owner = 3, 9
+				w.setResv(rv)
+			case 9:
+				w.setPod(&c17Pod{uid: 2, node: 2, sched: 2})
+			case 10:
+				w.setPod(nil)
+			case 11:
+				w.now += 300
+				w.clk.Step(300 * time.Second)
+				h.Op("tick 300")
+			case 12:
+				w.newReconciler()
+				h.Op("restart %d", w.ctrlUID)
+			case 13:
+				w.arb()
+			default:
+				rv.phase, rv.expired = 4, true
+				w.setResv(rv)
+			}
+		}
+		h.Tag(fmt.Sprintf("exhaustive:len=%d", length))
+		h.Tag(fmt.Sprintf("history:restricted-events=%v/evicted=%v", !w.unrestricted && !w.xDisturbed, w.evictCalls > 0))
+		h.Tag(fmt.Sprintf("history:evict-calls=%d", w.evictCalls))
+		h.End()
+	}
+	h.Extra("exhaustive", fmt.Sprintf("all %d histories of <= 4 events over %d letters x 2 start states", n, A))
+	h.Close("EXHAUSTIVE small scope: every history of at most 4 events over {reconcile clean / 3rd write fails / 4th write fails / reservation deleted before the 6th API call / 6th read fails, " +
+		"reservation scheduled on another node / on the pod's node / deleted / consumed by another pod / expired, pod replaced / deleted, clock +TTL, controller restart, arbitration hand-off} " +
+		"from a fresh reservation-first job and from a job half way with a pending reservation; non-trivial = a reconcile issued an API call")
 }
